@@ -73,20 +73,27 @@ func errorsIs(err, target error) bool {
 // it is cheaper for a solver than the day ordinal and is itself tied to refOrdinal by the C07 lemma harness.
 func refKey(y, m, d int) int { return (y*16+m)*32 + d }
 
-// refOrdinalJ: days since 0001-01-01, January-based closed form (years >= -4000000000).
+// refOrdinalJ: days since 0001-01-01, January-based closed form (|y| <= 2^33).
 func refOrdinalJ(y, m, d int) int {
-	const shift = 4000000000 // multiple of 400
-	a := uint64(y - 1 + shift)
+	const shift = 400 * 21474837
+	a := uint64(y + (shift - 1))
 	days := int(365*a+a/4-a/100+a/400) - (shift/400)*146097
 	cum := [13]int{0, 0, 31, 59, 90, 120, 151, 181, 212, 243, 273, 304, 334}
-	off := 0
-	for k := 1; k <= 12; k++ {
+	off := cum[12]
+	for k := 11; k >= 1; k-- {
 		if m == k {
 			off = cum[k]
 		}
 	}
-	if refLeap(y) && m > 2 {
-		off++
+	adj := 0
+	leapLate := refLeapJ(y) && m > 2
+	if leapLate {
+		adj = 1
 	}
-	return days + off + d - 1
+	return days + (off + adj) + (d - 1)
+}
+
+func refLeapJ(y int) bool {
+	u := uint64(y + 400*21474837)
+	return (u%4 == 0 && u%100 != 0) || u%400 == 0
 }
